@@ -968,3 +968,7 @@ V("composition normalised by its bottom-right entry", "C06", TRANS, _COMP,
 V("twin: composition through a local", "C06", TRANS, _COMP, "        product = matmul(transformation.array, self.array)\n        return TransformationCollection.from_array(product)", "silent")
 V("twin: composition as the transposed product of the transposes", "C06", TRANS, _COMP,
   "        product = matmul(self.array, transformation.array, transpose_a=True, transpose_b=True)\n        return TransformationCollection.from_array(np.swapaxes(product, -1, -2))", "silent")
+V("negative powers without the inverse", "C06", TRANS, "            return self.inverse().__pow__(-power, modulo)", "            return self.__pow__(-power, modulo)", "E19.act", "Tensor.__apply__")
+V("t**0 is t", "C06", TRANS, "        if power == 0:\n            if self.free_indices == 0:\n                return identity(self.dim)", "        if power == 0:\n            if self.free_indices == 0:\n                return self.copy()", "E19.act", "Tensor.__apply__")
+V("twin: negative powers through a local", "C06", TRANS, "            return self.inverse().__pow__(-power, modulo)", "            inverse = self.inverse()\n            return inverse.__pow__(-power, modulo)", "silent")
+V("power chain with the edge reversed keeps the product (twin)", "C06", "geometer/base.py", "            d.add_edge(cur, prev)", "            d.add_edge(prev, cur)", "silent")
